@@ -292,6 +292,8 @@ class Spec:
                 c, p = int(w[1]), int(w[2])
                 i = self.deferred[c].pop(p)
                 self.compare(c, per.get(c, []), step, [], [(i, p, None)], [])
+            elif name == "reconn":
+                self.inbox[int(w[1])] = []       # in flight on the old connection: lost with it
             elif name == "destroy":
                 c = int(w[1])
                 self.alive[c] = False
@@ -457,6 +459,11 @@ class Prop:
                 d = depth()
                 lines.append("call %d %d" % (c, d) if d or rng.random() < 0.2 else "call %d" % c)
                 new_call(c, d)
+            elif k < 0.225 and alive[c] and kinds[c] == "client":
+                # the channel object outlives its connection (a TcpClient with retry on): calls made on the new
+                # connection still get fresh ids, calls outstanding from the old one are still completed only by their own id
+                lines.append("reconn %d" % c)
+                inbox[c] = []
             elif k < 0.27 and alive[c]:
                 n = rng.choice([2, 3, 4])
                 d = depth() if rng.random() < 0.4 else 0
